@@ -321,19 +321,74 @@ def e5_total_handover(ctx, rep):
     rep.floor(R, "hand-over paths", n, 4)
 
 
-def _stop_waits_for_loop(ctx):
-    """does stop() wait for the reducer loop before it takes the pool out of its slot?  The
-    only wait primitives are pool joins; a join *before* the take cannot exist because joining
-    consumes/borrows the pool that sits in the slot - accept only an explicit join (or a join
-    handle / barrier wait) that dominates the take."""
+REDUCER_END_WAITS = {"std::thread::JoinHandle::join", "std::sync::Barrier::wait",
+                     "std::sync::Condvar::wait", "std::sync::Condvar::wait_while", "std::sync::Condvar::wait_timeout", "std::sync::Condvar::wait_timeout_while",
+                     "std::sync::mpsc::Receiver::recv", "std::sync::mpsc::Receiver::recv_timeout",
+                     "crossbeam::channel::Receiver::recv", "crossbeam::channel::Receiver::recv_timeout",
+                     "crossbeam_channel::Receiver::recv", "crossbeam_channel::Receiver::recv_timeout"}
+
+
+def _reducer_thread_signals_its_end(ctx):
+    """is there anything in the reducer thread's closure that can end such a wait when the
+    closure returns: a captured sender half (dropped with the closure), or a Condvar notify in
+    the closure's call tree or in the `Drop` of a value the closure owns?"""
     A = ctx.A
+    cl, _ = A.reducer_closure
+    for l in cl.locals:
+        ty = l.get("ty", "")
+        if ("mpsc::Sender<" in ty or "mpsc::SyncSender<" in ty or "channel::Sender<" in ty) and "ActionOp" not in ty:
+            return True
+    reach = dict(ctx.sync_reach([cl]))
+    owned = {strip_generics_(l.get("adt") or "") for l in cl.locals if l.get("adt")}
+    for b in ctx.prog.bodies:
+        if (b.j.get("impl_trait") or "").endswith("ops::Drop") and strip_generics_(b.j.get("impl_adt") or "") in owned:
+            reach.update(ctx.sync_reach([b]))
+    return ctx.reach_has_site(reach, lambda x: x.ck in ("std::sync::Condvar::notify_all", "std::sync::Condvar::notify_one"))
+
+
+def strip_generics_(p):
+    from mirq.inline import strip_generics
+    return strip_generics(p) if p else p
+
+
+def _stop_waits_for_loop(ctx):
+    """does stop() wait for the reducer loop before it takes the pool out of its slot?  On every
+    returning path that empties the slot, the take is preceded by a join of the pool (the reducer
+    loop is one of its jobs; joining a clone leaves the slot filled), or by a wait that the
+    reducer thread's closure ends when it returns.  Timed waits count: the timeout is the one
+    stop() always had.  Paths on which the pool was already gone or a lock is poisoned are
+    exempt."""
+    A = ctx.A
+    from rules.stop import _is_slot
     stop = A.method("StoreImpl", "stop")
-    cfg = ctx.prog.cfg(stop)
-    takes = [s for s in ctx.prog.sites(stop) if s.ck == "std::option::Option::take" and any(st[0] == "field" and st[2] == A.f_pool for st in subterms(ctx.prog.bp(stop).arg_term(s.bb, 0)))]
-    waits = [s for s in ctx.prog.sites(stop) if s.ck in POOL_JOIN or s.ck in ("std::thread::JoinHandle::join", "std::sync::Barrier::wait", "std::sync::Condvar::wait", "std::sync::mpsc::Receiver::recv")]
-    if not takes:
-        return False
-    return any(all(cfg.dominates(w.bb, t.bb) and w.bb != t.bb for t in takes) for w in waits)
+    pe = ctx.paths(stop, inline=True)
+    signalled = None
+    n = 0
+    for p in pe.paths:
+        if p.end != "return":
+            continue
+        evs = p.calls()
+        tk = [e for e in evs if e.ck in ("std::option::Option::take", "std::mem::take") and _is_slot(ctx, e.args[0], A.f_pool)]
+        if not tk:
+            continue
+        if any(k[0] == "discr" and k[1][0] == "lockres" and str(v).lstrip("*") == "Err" for k, v in p.decisions):
+            continue
+        # the pool was gone already (a clone of the slot's content was None / the take gave None)
+        if any(k[0] == "discr" and str(v).lstrip("*") == "None" and _is_slot(ctx, k[1], A.f_pool) for (k, v) in p.decisions):
+            continue
+        n += 1
+        before = evs[:evs.index(tk[0])]
+        ok = False
+        for e in before:
+            if e.ck in POOL_JOIN and _is_slot(ctx, e.args[0], A.f_pool):
+                ok = True
+            elif e.ck in REDUCER_END_WAITS:
+                if signalled is None:
+                    signalled = _reducer_thread_signals_its_end(ctx)
+                ok = ok or signalled
+        if not ok:
+            return False
+    return n > 0
 
 
 def e6_reducer_never_enqueues(ctx, rep):
